@@ -9,6 +9,7 @@ import Ctrmml.Proofs.MdDriver
 import Ctrmml.Proofs.VgmInv
 import Ctrmml.Proofs.VgmPcm
 import Ctrmml.Proofs.Wave
+import Ctrmml.Proofs.WaveReader
 namespace Ctrmml.MdDriver
 open Ctrmml Player PlayerCh Tables
 
@@ -859,5 +860,48 @@ theorem bankOK_of_inv (d : Data) (rs : List Alloc.Win) (inv : Wave.Inv d.bank rs
   obtain ⟨r, hr, _, h2⟩ := inv.housed s hs
   have := inv.regWf r hr
   omega
+
+/-- wave banks `MDSDRV_Data::read_song` builds: `add_sample(Tag)` calls (one per `@n pcm` tag) on the
+new 2 MiB bank, each on a file of less than 1 GiB (the size bound of C14's bank theorems) -/
+inductive BankBuilt : Wave.Bank → Prop
+  | new : BankBuilt (Wave.Bank.new mds_dataWaveRom 0)
+  | add {b b' : Wave.Bank} (file : Option Bytes) (tag : List String) (idx : Nat) :
+      BankBuilt b → (∀ f, file = some f → f.length < 1073741823) →
+      Wave.addSampleTag b file tag = .ok (b', idx) → BankBuilt b'
+
+/-- one successful `add_sample(Tag)` keeps the allocator invariant -/
+theorem addSampleTag_inv (b : Wave.Bank) (rs : List Alloc.Win) (inv : Wave.Inv b rs) (file : Option Bytes)
+    (tag : List String) (hf : ∀ f, file = some f → f.length < 1073741823) (b' : Wave.Bank) (idx : Nat)
+    (hok : Wave.addSampleTag b file tag = .ok (b', idx)) : ∃ rs', Wave.Inv b' rs' := by
+  unfold Wave.addSampleTag at hok
+  match tag, file with
+  | [], _ => simp at hok
+  | _ :: args, none => simp at hok
+  | _ :: args, some f =>
+    have hfl := hf f rfl
+    simp only at hok
+    match hr : Wave.readWav f with
+    | .error e => rw [hr] at hok; cases hok
+    | .ok none => rw [hr] at hok; cases hok
+    | .ok (some wf) =>
+      rw [hr] at hok
+      simp only at hok
+      have hd := Wave.readWav_data_le f wf hr
+      match happ : Wave.applyArgs args ⟨0, 0, wf.slength, wf.lstart, wf.lend, wf.srate, wf.transpose, 0⟩ with
+      | .error e => rw [happ] at hok; cases hok
+      | .ok h =>
+        rw [happ] at hok
+        simp only at hok
+        have hdl : (Wave.encodeSample wf.data0).length < 1073741824 := by
+          simp only [Wave.encodeSample, List.length_map]; omega
+        exact ⟨_, (Wave.addSample_step b rs h (Wave.encodeSample wf.data0) b' idx inv ⟨hdl⟩ hok).inv⟩
+
+/-- every bank `read_song` builds satisfies the allocator invariant -/
+theorem bankBuilt_inv (b : Wave.Bank) (h : BankBuilt b) : ∃ rs, Wave.Inv b rs := by
+  induction h with
+  | new => exact ⟨[], Wave.inv_new mds_dataWaveRom 0 (by decide) (by decide) (by decide)⟩
+  | add file tag idx _ hf hok ih =>
+    obtain ⟨rs, inv⟩ := ih
+    exact addSampleTag_inv _ rs inv file tag hf _ idx hok
 
 end Ctrmml.MdDriver
